@@ -9,7 +9,8 @@ import (
 // capability represents a known-safe attribute access after a `has` guard.
 type capability struct {
 	varName types.String // variable or expression identity
-	attr    types.String // attribute name
+	attr    types.String // attribute name or tag key
+	tag     bool         // true if attr is a tag key rather than an attribute name
 }
 
 // capabilitySet tracks which attributes are safe to access.
